@@ -209,7 +209,8 @@ def offsetsFrom : Nat → List Loc → List Nat
 
 /-- the file-token loop of `parseManifestStream`: stops at the first bad token. After fix 4f92334
 the range test is `SegPos > streamoffset || SegLen > streamoffset-SegPos` (no uint64 wrap); after
-fix b1a09e4 a non-empty token whose combined path `fixStreamName` would alter is an error. -/
+fixes b1a09e4, c203269 a token whose combined path `fixStreamName` would alter is an error, except the
+zero-length `.` token (the collection filesystem's empty-directory marker). -/
 def pkgFileToks (sname : Bytes) (total : Nat) : List Bytes → List FTok × Bool
   | [] => ([], false)
   | t :: rest =>
@@ -217,7 +218,7 @@ def pkgFileToks (sname : Bytes) (total : Nat) : List Bytes → List FTok × Bool
     | none => ([], true)
     | some f =>
       if f.pos > total ∨ f.len > total - f.pos then ([], true)
-      else if f.len > 0 ∧ fixStreamName (sname ++ bSlash :: f.name) ≠ sname ++ bSlash :: f.name then ([], true)
+      else if ¬ (f.len = 0 ∧ f.name = [bDot]) ∧ fixStreamName (sname ++ bSlash :: f.name) ≠ sname ++ bSlash :: f.name then ([], true)
       else let (fs, e) := pkgFileToks sname total rest; (f :: fs, e)
 
 /-- block sizes: `strconv.ParseInt(tokens[1], 10, 0)`; `none` on overflow -/
